@@ -59,9 +59,20 @@ def parse_pieces(tok):
 class P(Prop):
     id = "C11"
     design_ref = "DESIGN.md section 5, C11"
-    theorems = []
+    theorems = [
+        ("TracklibVerif.Props.C11", "TV.C11.split_partition", "with at least one marked observation the pieces, concatenated in order, are exactly the track"),
+        ("TracklibVerif.Props.C11", "TV.C11.split_none", "with no marked observation the returned collection is empty"),
+        ("TracklibVerif.Props.C11", "TV.C11.split_ends_marked", "every piece but the last ends at a marked observation and contains no other marked one"),
+        ("TracklibVerif.Props.C11", "TV.C11.split_tail_unmarked", "the last piece contains no marked observation"),
+        ("TracklibVerif.Props.C11", "TV.C11.split_only_tail_empty", "only the trailing piece can be empty"),
+        ("TracklibVerif.Props.C11", "TV.C11.split_pairs", "split only looks at the markers: pieces of (obs, marker) pairs are the images of the pieces of the self-tagged track"),
+        ("TracklibVerif.Props.C11", "TV.C11.marker_and", "AND mode: call succeeds and marker = 1 iff some tested non-NaN value exceeds its threshold"),
+        ("TracklibVerif.Props.C11", "TV.C11.marker_or", "OR mode: call succeeds and marker = 1 iff every tested non-NaN value exceeds its threshold"),
+        ("TracklibVerif.Props.C11", "TV.C11.markers_each", "segmentation() yields one marker per observation, each as in marker_and / marker_or"),
+    ]
     partial = []
-    open_statements = []
+    open_statements = ["split(track, name, limit > 0) (pieces shorter than `limit` are dropped) and split(track, <index list>) are not modelled: out of the property's domain",
+                       "thresholds/values are exact rationals in the model (IEEE comparison of finite doubles is exact, so nothing is lost; infinities are not generated)"]
     modelled = ("segmentation.split(track, <feature name>, limit=0) (begin / extract(begin, i) inclusive / tail when begin != 0, "
                 "Track.extract with begin > end giving an empty track), and segmentation.segmentation() (per-observation AND/OR fold of "
                 "value <= thresholds_max[index], NaN skipped, the `len(thresholds_max) >= index` guard with its IndexError / "
